@@ -560,12 +560,24 @@ fn event_hook(ev: Label) {
 pub fn sim_set_infinity(v: f64) {
     api(format!("set_infinity({:e})", v));
     clarabel::set_infinity(v);
-    with_sim(|s| s.inf_model = v);
+    // still holding the baton: the store and the model update are one step
+    let th = my_id() as u8;
+    with_sim(|s| {
+        s.inf_model = v;
+        s.push(th, EvKind::Note(format!("inf_model={}", v.to_bits())));
+    });
 }
 pub fn sim_default_infinity() {
     api("default_infinity()".to_string());
     clarabel::default_infinity();
-    with_sim(|s| s.inf_model = clarabel::INFINITY_DEFAULT);
+    let th = my_id() as u8;
+    with_sim(|s| {
+        s.inf_model = clarabel::INFINITY_DEFAULT;
+        s.push(
+            th,
+            EvKind::Note(format!("inf_model={}", clarabel::INFINITY_DEFAULT.to_bits())),
+        );
+    });
 }
 /// read the real global without producing events or yielding
 pub fn quiet_get_infinity() -> f64 {
